@@ -81,15 +81,19 @@ type Case struct {
 }
 
 type RaceObs struct {
-	Kind          string `json:"kind"`
-	DelayMicros   int    `json:"delay_us"`
-	Ghosts        int    `json:"ghost_entries"`
-	LateDatagrams int    `json:"datagrams_after_return"`
-	RemovedSeq    uint64 `json:"removal_returned_seq"`
-	LateSeq       uint64 `json:"first_late_send_seq,omitempty"`
-	DuringDrain   int    `json:"datagrams_during_drain,omitempty"` // handed to Bind.Send between "remove issued" and "remove returned"
-	WaitMillis    int    `json:"wait_ms,omitempty"`
-	ReturnedEarly bool   `json:"removal_returned_while_send_parked,omitempty"`
+	Kind                    string `json:"kind"`
+	DelayMicros             int    `json:"delay_us"`
+	Ghosts                  int    `json:"ghost_entries"`
+	LateDatagrams           int    `json:"datagrams_after_return"`
+	RemovedSeq              uint64 `json:"removal_returned_seq"`
+	LateSeq                 uint64 `json:"first_late_send_seq,omitempty"`
+	DuringDrain             int    `json:"datagrams_during_drain,omitempty"` // handed to Bind.Send between "remove issued" and "remove returned"
+	WaitMillis              int    `json:"wait_ms,omitempty"`
+	ReturnedEarly           bool   `json:"removal_returned_while_send_parked,omitempty"`
+	StopSeq                 uint64 `json:"peer_stopped_seq,omitempty"`      // queued: stamp of Peer.Stop's "Stopping" line
+	Queued                  int    `json:"queued_packets,omitempty"`        // queued: containers waiting in peer.queue.outbound at the removal
+	SessionAfter            bool   `json:"current_keypair_after,omitempty"` // inside-response (setkey): the peer holds a current keypair afterwards
+	OpensUnderHandshakeKeys int    `json:"late_transport_opens_under_handshake_keys,omitempty"`
 }
 
 const unknownID = 9999
@@ -1572,6 +1576,24 @@ func main() {
 				cases = append(cases, rc)
 				continue
 			}
+			if len(c.Plan) == 1 && (strings.HasPrefix(c.Plan[0], "queued") || strings.HasPrefix(c.Plan[0], "insideresponse")) {
+				f := strings.Fields(c.Plan[0])
+				how := "remove"
+				if len(f) > 1 {
+					how = f[1]
+				}
+				var rc Case
+				if f[0] == "queued" {
+					rc = queuedRemoval(how)
+				} else {
+					rc = insideResponse(how)
+				}
+				if gen != "" {
+					rc.Gen = gen
+				}
+				cases = append(cases, rc)
+				continue
+			}
 			if len(c.Plan) == 1 && strings.HasPrefix(c.Plan[0], "insidehandshake") {
 				f := strings.Fields(c.Plan[0])
 				how := "remove"
@@ -1685,6 +1707,8 @@ func main() {
 		for i := 0; i < *inside; i++ {
 			cases = append(cases, insideBatch("remove"), insideBatch("replace"))
 			cases = append(cases, insideHandshake("remove"), insideHandshake("replace"), insideHandshake("setkey"))
+			cases = append(cases, insideResponse("setkey"), insideResponse("remove"), insideResponse("replace"))
+			cases = append(cases, queuedRemoval("remove"), queuedRemoval("replace"))
 		}
 		for _, f := range pending {
 			cases = append(cases, f())
